@@ -41,7 +41,7 @@ def run(ctx):
                             "no kill in the graceful arm", loc,
                             fail="%s force-kills the process in the arm that only should signal it (before the grace period)" % name)
                 if "running" in conds and "signal=Ok" in conds:
-                    ok = eff and eff[0] == "signal(signal)" and arm_kind in eff and eff.index("signal(signal)") < eff.index(arm_kind) and out == "Skip"
+                    ok = eff and eff[0] == "signal(signal)" and arm_kind in eff and eff.index("signal(signal)") < eff.index(arm_kind) and out == "continue" and "raise(done)" not in eff
                     ctx.require(ok, "R06.1", key + ":signal-then-arm", "signal is delivered, then the grace timer is armed, completion deferred", loc,
                                 fail="%s on a running command does [%s] -> %s instead of signal, arm timer, defer" % (name, " ".join(eff), out))
                 if "running" in conds:
